@@ -327,4 +327,11 @@ func neighbourOps(c *props.Ctx, cfg eng.ShapeConfig) {
 		reportShape(c, fn, eng.AnalyseDegenerateDrop(fn, isKey), nil)
 	}
 	c.R.Floor("DEGEN-1", 1)
+	// split by material: the accumulator of the current range
+	if fn := p.Func("modeling/meshops", "SplitOnUniqueMaterials"); fn == nil {
+		c.R.Failf("anchor meshops.SplitOnUniqueMaterials not found")
+	} else {
+		reportShape(c, fn, eng.AnalyseCursorKeyed(fn), nil)
+	}
+	c.R.Floor("SPLIT-1", 1)
 }
